@@ -419,7 +419,7 @@ func (g *G) loop(o blockOpts) []*S {
 			}
 			return g.smallLit(t, lo, hi, allBare)
 		}
-		s := &S{K: SForRange, Name: g.fresh("i"), T: t}
+		s := &S{K: SForRange, Name: g.fresh("k"), T: t}
 		switch g.r.Intn(5) {
 		case 0, 1:
 			s.Args = []*E{bound(0, 6)}
